@@ -62,6 +62,25 @@ theorem apply_declOp_wf {c c' : Cached} (hwf : c.iface.WF) (hc : c.Coherent) (o 
     rcases dset_mem hs with hs | rfl
     · exact hwf.signals s hs
     · exact ⟨ts.map Ty.render, splitsTo_renderAll ts, by simp⟩
+  | addCountedMethod n ins outs =>
+    simp only [DeclOp.toOp, Cached.apply, Interface.addMethod] at h
+    rw [if_neg (by omega : ¬ ((ins.length : Int) = -1))] at h
+    cases h
+    refine { hwf with methods := ?_, mnames := dset_nodup _ hwf.mnames }
+    intro m hm
+    rcases dset_mem hm with hm | rfl
+    · exact hwf.methods m hm
+    · exact ⟨ins.map Ty.render, outs.map Ty.render, splitsTo_renderAll ins, splitsTo_renderAll outs,
+        by simp, by simp⟩
+  | addCountedSignal n ts =>
+    simp only [DeclOp.toOp, Cached.apply, Interface.addSignal] at h
+    rw [if_neg (by omega : ¬ ((ts.length : Int) = -1))] at h
+    cases h
+    refine { hwf with signals := ?_, snames := dset_nodup _ hwf.snames }
+    intro s hs
+    rcases dset_mem hs with hs | rfl
+    · exact hwf.signals s hs
+    · exact ⟨ts.map Ty.render, splitsTo_renderAll ts, by simp⟩
   | addProperty n ty r w e =>
     simp only [DeclOp.toOp, Cached.apply, Interface.addProperty] at h
     cases h
@@ -142,6 +161,19 @@ theorem apply_declOp_ty {c c' : Cached} (hty : ∀ m ∈ c.iface.methods, m.TyDe
     simp only [DeclOp.toOp, Cached.apply, Interface.addSignal, Signal.new, countCompleteTypes_renderAll,
       liftSplit] at h
     simp only [if_true] at h
+    cases h
+    exact hty
+  | addCountedMethod n ins outs =>
+    simp only [DeclOp.toOp, Cached.apply, Interface.addMethod] at h
+    rw [if_neg (by omega : ¬ ((ins.length : Int) = -1))] at h
+    cases h
+    intro m hm
+    rcases dset_mem hm with hm | rfl
+    · exact hty m hm
+    · exact ⟨ins, outs, rfl, rfl, rfl, rfl⟩
+  | addCountedSignal n ts =>
+    simp only [DeclOp.toOp, Cached.apply, Interface.addSignal] at h
+    rw [if_neg (by omega : ¬ ((ts.length : Int) = -1))] at h
     cases h
     exact hty
   | addProperty n ty r w e =>
